@@ -52,7 +52,43 @@ def gen_cases(rng, tier):
             cases.append({"kind": "problems", "model": model, "seed": rng.randrange(2**32), "n": 2 if big else 5})
         for _ in range(1 if tier == "quick" else 6):
             cases.append({"kind": "library", "model": model, "seed": rng.randrange(2**32), "n": 2 if big else 6})
+    for _ in range(1 if tier == "quick" else 3):
+        cases.append({"kind": "many-patterns", "seed": rng.randrange(2**32)})
     return cases
+
+
+def relate_many_patterns(res, rng):
+    """an alignment with more distinct site patterns below one node than a 16-bit index can hold (> 32767): column
+    order must still not matter (pattern numbers are given in order of first appearance)"""
+    from cogent3 import get_model, make_aligned_seqs, make_tree
+
+    ntips, ncols = 9, 75000
+    names = [f"t{i}" for i in range(ntips)]
+    cols = ["".join(rng.choice("ACGT") for _ in names) for _ in range(ncols)]
+    nw = f"(({','.join(f'{n}:{round(rng.uniform(0.05, 0.4), 3)}' for n in names[:-1])})n0:0.1,{names[-1]}:0.2);"
+
+    def lnL(order):
+        aln = make_aligned_seqs({n: "".join(cols[j][i] for j in order) for i, n in enumerate(names)}, moltype="dna")
+        lf = get_model("HKY85").make_likelihood_function(make_tree(nw))
+        lf.set_alignment(aln)
+        lf.set_motif_probs(dict(A=0.2, C=0.3, G=0.3, T=0.2))
+        lf.set_param_rule("kappa", init=2.5)
+        return float(lf.lnL)
+
+    fwd = list(range(ncols))
+    try:
+        a, b = lnL(fwd), lnL(fwd[::-1])
+    except Exception as e:  # noqa: BLE001
+        res.evals += 1
+        res.witness(exc_mechanism("C11/many-patterns", e), error=repr(e)[:200])
+        return
+    npat = len(set(c[:-1] for c in cols))
+    res.evals += 1
+    res.count("relation:column-permutation/many-patterns")
+    res.count("patterns-below-one-node>32767" if npat > 32767 else "patterns-below-one-node<=32767")
+    res.sig("many-patterns", npat > 32767)
+    if abs(a - b) > 1e-9 * abs(a):
+        res.witness("C11/column-permutation/more-than-32767-patterns-below-a-node", forward=a, reversed=b, distinct_patterns=npat)
 
 
 # ---------------------------------------------------------------------------
@@ -307,6 +343,9 @@ def run_case(case):
             for _ in range(case["n"]):
                 relate_library_tree_ops(res, rng, case["model"])
         return res
+    if case["kind"] == "many-patterns":
+        relate_many_patterns(res, random.Random(case["seed"]))
+        return res
     if case["kind"] == "one":
         relate(res, case["prob"], random.Random(case.get("seed", 0)), only=case.get("relation"))
         return res
@@ -462,5 +501,5 @@ def relate(res, prob, rng, only=None):
 
 
 def required(counters, tier):
-    need = ["relation:column-permutation", "relation:row-order", "relation:child-order", "relation:repeat-columns-x2", "relation:repeat-columns-x3", "relation:concatenation-additivity", "relation:reroot-at-internal-node", "relation:reroot-on-edge", "relation:edge-split", "relation:library-unrooted", "relation:library-root_at_midpoint", "relation:library-rooted_at", "relation:library-rooted_with_tip", "relation:library-sorted"]
+    need = ["patterns-below-one-node>32767", "relation:column-permutation", "relation:row-order", "relation:child-order", "relation:repeat-columns-x2", "relation:repeat-columns-x3", "relation:concatenation-additivity", "relation:reroot-at-internal-node", "relation:reroot-on-edge", "relation:edge-split", "relation:library-unrooted", "relation:library-root_at_midpoint", "relation:library-rooted_at", "relation:library-rooted_with_tip", "relation:library-sorted"]
     return [n for n in need if not counters.get(n)]
